@@ -602,7 +602,7 @@ Fixpoint replay (n : nat) (h : list oline) (order : list skey) (next : nat) (sta
       | _ =>
           match dedupe [] (filter (snap_ok (o_snap o)) cand) with
           | [] => B "step-" ++ dec_of_nat n ++ B ":visible-state-differs(msg_senders/subscriptions/queues/receivers)" ++ debug_info cand
-          | ok => replay (S n) r (order_of (o_snap o) order) (if is_msg_ev (o_ev o) then S next else next) (firstn 64 ok)
+          | ok => replay (S n) r (order_of (o_snap o) order) (if is_msg_ev (o_ev o) then S next else next) (firstn 256 ok)
           end
       end
   end.
